@@ -68,6 +68,8 @@ class Extract:
         self.attrs = []
         self.verbatim = False
         self.pub_fields = False
+        self.optional = False
+        self.strip_attrs = False
         self.sig_rewrites = []
 
 
@@ -82,12 +84,13 @@ def _parse_unit(text, base_dir=None):
     buf = []
     while i < len(lines):
         ln = lines[i]
-        m = re.match(r"\s*//@ extract (\S+) :: (.+?)\s*$", ln)
+        m = re.match(r"\s*//@ extract(\??) (\S+) :: (.+?)\s*$", ln)
         if m:
             if buf:
                 segs.append(("text", "\n".join(buf)))
                 buf = []
-            ex = Extract(m.group(1), m.group(2))
+            ex = Extract(m.group(2), m.group(3))
+            ex.optional = bool(m.group(1))  # `extract?`: skipped silently when the item no longer exists
             i += 1
             cur = None  # (kind, key)
             while i < len(lines) and not re.match(r"\s*//@ end\s*$", lines[i]):
@@ -150,6 +153,9 @@ def _parse_unit(text, base_dir=None):
                     cur = None
                 elif k == "pub_fields":
                     ex.pub_fields = True
+                    cur = None
+                elif k == "strip_attrs":
+                    ex.strip_attrs = True
                     cur = None
                 else:
                     raise ValueError("unknown extract directive %r" % l2)
@@ -279,6 +285,10 @@ def transform(ex, src):
                                  (ex.anchor, old, text.count(old), cnt))
             text = text.replace(old, new)
             record["transformations"].append("T6 %r => %r x%d" % (old, new, cnt))
+        if ex.strip_attrs:
+            # drop attribute lines (serde etc.) and doc comments inside a data type definition
+            text = "\n".join(l for l in text.split("\n") if not l.strip().startswith("#[") and not l.strip().startswith("///"))
+            record["transformations"].append("T5 attribute/doc lines inside the item removed")
         if ex.pub_fields:
             text = re.sub(r"(?m)^(\s+)(?!pub\b)([a-z_][A-Za-z0-9_]*\s*:)", r"\1pub \2", text)
             record["transformations"].append("T5 all fields made pub")
@@ -404,6 +414,11 @@ def generate(unit_path, repo=REPO, canary=None):
                 sources[p] = Source(p)
             if canary and canary[0] == ex.anchor.split("::")[-1].replace("fn ", "").strip():
                 ex.clauses["ensures"] = ex.clauses.get("ensures", "") + canary[1].rstrip(",") + ",\n"
+            if ex.optional:
+                try:
+                    sources[p].find(ex.anchor)
+                except LostAnchor:
+                    continue
             t, rec = transform(ex, sources[p])
             t = ("// ---- extracted from %s :: %s (lines %d-%d, sha256 %s)\n" %
                  (ex.path, ex.anchor, rec["lines"][0], rec["lines"][1], rec["sha256"][:16])) + t + "\n"
